@@ -44,6 +44,11 @@ def sequence(kind, n, rng):
         s = np.zeros(n, dtype=int)
         s[n // 2:] = 2
         return s
+    if kind == "blocks":                  # long pass: 3a up to line 1024, then 3b / transition alternating up to 2048, then 3b
+        s = np.zeros(n, dtype=int)
+        s[:1024] = 1
+        s[1024:2048] = np.tile([0, 2], 512)[: max(0, min(n, 2048) - 1024)]
+        return s
     raise ValueError(kind)
 
 
@@ -238,6 +243,9 @@ def run(ctx):
     # undo the 3a / 3b blanking
     check_klm(ctx, "klmGac", 24, "random", ctx.seed * 1000 + k + 4, drv, start_ms=filegen.ydm_to_ms(2004, 14, 54000000))
     check_klm(ctx, "klmGac", 12, "3a+transition", ctx.seed * 1000 + k + 5, drv, start_ms=filegen.ydm_to_ms(2004, 14, 57600000))
+    if ctx.thorough or getattr(ctx, "escalated", False):
+        # one long pass (2100 lines) whose select value changes exactly at lines 1024 and 2048
+        check_klm(ctx, "klmGac", 2100, "blocks", ctx.seed * 1000 + k + 41, drv)
     check_pod(ctx, "podGac", 12, ctx.seed)
     check_pod(ctx, "podLac", 6, ctx.seed)
     if ctx.thorough:
